@@ -5,7 +5,7 @@ spec/CommitLog.tla (+ MC_CommitLog, Trace_CommitLog); harness/commitlog/c01_veri
 import os
 import random
 
-from vf import core
+from vf import core, graph
 
 META = {
     'property_id': 'C01',
@@ -43,6 +43,21 @@ def decorate(beh, rng, bid, hcs=HCS):
             a['recs'] = recs
         out['steps'].append(a)
     return out
+
+
+def cover_behaviours(rng, first_id, cfg):
+    """every transition of the small model (no VIEW: `last` is part of the state, so the arguments of each
+    transition can be read from its target node) as behaviours: shortest path to the source + the edge"""
+    g = graph.tlc_dump('MC_CommitLog.tla', cfg, workers=core.NCPU, timeout=1800)
+    paths, covered, total = graph.cover(g)
+    out = []
+    for root, p in paths:
+        beh = [{'body': g['nodes'][root], 'last': {'a': 'Open'}}]
+        for i in p:
+            node = g['nodes'][g['edges'][i][1]]
+            beh.append({'body': node, 'last': core.tlaval.state_var(node, 'last')})
+        out.append(decorate(beh, rng, first_id + len(out)))
+    return out, covered, total, g
 
 
 def features(beh):
@@ -114,11 +129,18 @@ def run(rep, tier, seed, replay):
                          timeout=3000, coverage=(tier == 'thorough'))
     rep.add_design('MC_CommitLog', res)
     # 2. behaviours from the specification
-    num = 1500 if tier == 'quick' else 20000
+    num = 700 if tier == "quick" else 20000
     depth = 12 if tier == 'quick' else 16
     sims = core.tlc_simulate('MC_CommitLog.tla', 'Sim_CommitLog.cfg' if tier == 'quick' else 'Sim_CommitLog_thorough.cfg',
                              num, depth, seed)
     behaviours = [decorate(b, rng, i + 1) for i, b in enumerate(sims) if len(b) > 1]
+    if True:
+        ccfg = 'MC_CommitLog_cover.cfg' if tier == 'quick' else 'MC_CommitLog_cover_thorough.cfg'
+        cov, covered, total, g = cover_behaviours(rng, 100001, ccfg)
+        behaviours += cov
+        rep.cov['transition_cover'] = {'config': ccfg, 'states': g['distinct'],
+                                       'transitions': total, 'transitions_replayed': covered, 'behaviours': len(cov)}
+        rep.cov['exhaustive'] = covered == total
     # 3. execute on the real code, 4. judge with TLC
     with core.scratch('c01') as d:
         trace = execute(behaviours, d)
@@ -127,7 +149,8 @@ def run(rep, tier, seed, replay):
     rep.cov['trace_lines_validated'] = tr['validated']
     rep.cov['evaluations'] = len(behaviours)
     rep.cov['distinct_nontrivial'] = len({core.sha(b['steps']) for b in behaviours if nontrivial(b)})
-    rep.cov['rule'] = ('behaviours = TLC simulation of MC_CommitLog (seeded) decorated with payload classes; '
+    rep.cov['rule'] = ('behaviours = every transition of the small cover model (spanning tree + one path per edge) + TLC '
+                       'simulation of MC_CommitLog (seeded), all decorated with payload classes; '
                        'non-trivial = contains an append and at least one of truncate/reopen/replicated append; '
                        'distinct by hash of the step list')
     rep.cov['samples'] = behaviours[:2]
